@@ -149,9 +149,11 @@ def _jsonable(x):
 
 # ------------------------------------------------------------------ known findings
 def load_known(prop):
-    path = os.path.join(VERIF, "KNOWN_FINDINGS.jsonl")
     known, fixed = [], []
-    if os.path.exists(path):
+    paths = [os.path.join(VERIF, "KNOWN_FINDINGS.jsonl"), os.path.join(VERIF, "known_findings", f"{prop}.jsonl")]
+    for path in paths:
+        if not os.path.exists(path):
+            continue
         for line in open(path):
             line = line.strip()
             if not line or line.startswith("#"):
